@@ -32,6 +32,8 @@ for q, fi in sorted(repo.functions.items()):
     if is_gate(fi):
         rej[q] = rejection_sites(ck, q)
 json.dump(rej, open(os.path.join(ref, "rejections.json"), "w"), indent=0, sort_keys=True)
+glob_names = sorted("%s.%s" % (m.name, n) for m in repo.modules.values() for n in m.assign_nodes)
+json.dump(glob_names, open(os.path.join(ref, "api_globals.json"), "w"), indent=0)
 from verif.selftest.runner import tree_digest
 open(os.path.join(ref, "tree.sha256"), "w").write(tree_digest(repo.root) + "  skepticoin/**/*.py of the tree the corpora were confirmed on\n")
 print(len(table), "checkpoints; genesis", len(data), "bytes;", len(repo.functions), "functions")
